@@ -860,7 +860,7 @@ class Object(base.Symbolic, metaclass=ObjectMeta):
     """Copy flags."""
     kwargs = dict()
     for k, v in self._sym_attributes.sym_items():
-      if deep or isinstance(v, base.Symbolic):
+      if deep or isinstance(v, (base.Symbolic, tuple)):
         v = base.clone(v, deep, memo)
       kwargs[k] = v
     return self.__class__(allow_partial=self._allow_partial,
